@@ -294,16 +294,21 @@ Lemma sites_all_covered : forallb covered generated_sites = true.
 Proof. vm_compute. reflexivity. Qed.
 
 Lemma covered_spec s : covered s = true ->
+  (owned s = false /\ dangerous_kind (s_kind s) = false) \/
   exists m, In m modelled_sites /\ site_loose_eqb s (fst m) = true.
 Proof.
-  unfold covered. intro H. apply existsb_exists in H. destruct H as [m [Hin Hm]].
-  exists m. split; [exact Hin|].
-  destruct (owned s); [|exact Hm].
-  unfold site_eqb in Hm. unfold site_loose_eqb.
-  apply andb_true_iff in Hm. destruct Hm as [Hm _]. exact Hm.
+  unfold covered. destruct (owned s) eqn:Ho.
+  - intro H. right. apply existsb_exists in H. destruct H as [m [Hin Hm]].
+    exists m. split; [exact Hin|].
+    unfold site_eqb in Hm. unfold site_loose_eqb.
+    apply andb_true_iff in Hm. destruct Hm as [Hm _]. exact Hm.
+  - intro H. apply orb_true_iff in H. destruct H as [H|H].
+    + left. split; [reflexivity|]. destruct (dangerous_kind (s_kind s)); [discriminate | reflexivity].
+    + right. apply existsb_exists in H. destruct H as [m [Hin Hm]]. exists m. split; assumption.
 Qed.
 
 Lemma sites_covered_in s : In s generated_sites ->
+  (owned s = false /\ dangerous_kind (s_kind s) = false) \/
   exists m, In m modelled_sites /\ site_loose_eqb s (fst m) = true.
 Proof.
   intro H. apply covered_spec.
